@@ -449,8 +449,13 @@ def o4_2_database_iterator(mir, tier):
                  '%d cursor patterns of length <= 4 with a free seek target; read sampling summarised as a no-op' % (E_MAX, len(patterns)))
     t0 = time.time()
     opname = {'first': 'seek_to_first', 'last': 'seek_to_last', 'seek': 'seek', 'next': 'next', 'prev': 'prev'}
-    for n in range(1, E_MAX + 1):
-        for comp in compositions(n):
+    # deep version stacks: one user key with 10 versions (most of them newer than the iterator's sequence number) next to other keys -
+    # long runs of entries the iterator has to step over (a "skip ahead after k entries" shortcut lives there); few patterns
+    DEEP = [(11, (10, 1))] if tier == 'quick' else [(11, (10, 1)), (12, (1, 10, 1))]
+    DEEP_PATTERNS = [['first', 'next'], ['seek', 'next'], ['last', 'prev']]
+    all_shapes = [(n, comp, patterns) for n in range(1, E_MAX + 1) for comp in compositions(n)] + [(n, comp, DEEP_PATTERNS) for n, comp in DEEP]
+    if True:
+        for n, comp, patterns in all_shapes:
             w = World(mir)
             keys = [w.key('e%d' % i) for i in range(n)]; vals = [BitVec('val%d' % i, 8) for i in range(n)]
             KE = [w.K(k) for k in keys]
@@ -461,6 +466,10 @@ def o4_2_database_iterator(mir, tier):
             for g in groups:
                 pre += [KE[g[j]][0] == KE[g[0]][0] for j in range(1, len(g))] + [UGT(KE[g[j]][1], KE[g[j + 1]][1]) for j in range(len(g) - 1)]
             pre += [ULT(KE[groups[j][0]][0], KE[groups[j + 1][0]][0]) for j in range(len(groups) - 1)]
+            if n > E_MAX:
+                # deep stack: the entries of the long group are puts, at least 9 of them newer than the iterator's sequence number (the run to step over)
+                for g in groups:
+                    if len(g) >= 10: pre += [KE[j][2] == bv(1) for j in g[:-1]] + [UGT(KE[g[8]][1], snap)]
             m = len(groups)
             # per group: visible?, value
             gvis, gval, gkey = [], [], []
